@@ -4,7 +4,7 @@
 (* history of one store is accepted iff every reply is the reply of the    *)
 (* set specification FactStore.tla.  Events:                               *)
 (*   reset{kind, base, exact, removable}   add/rm/has{a, r}   query{pat, r}*)
-(*   merge{from}   preds{r}   count{r}                                     *)
+(*   merge{from}   preds{r}   count{r}   alias{detail} (never accepted)     *)
 (* On a rejected event the verdict is printed and the rest of that history *)
 (* (up to the next reset) is skipped, later histories are still checked.   *)
 (***************************************************************************)
@@ -23,6 +23,9 @@ Agrees(e) ==
     [] e.ev = "has"   -> e.r = HasReply(base, out, e.a)
     [] e.ev = "query" -> SetOf(e.r) = QueryReply(base, out, e.pat) /\ NoDup(e.r)
     [] e.ev = "merge" -> TRUE
+    \* recorded when a merge source and the store it was merged into stopped being independent sets (the harness keeps
+    \* every source alive, changes it after the merge and compares it after every later operation): never allowed
+    [] e.ev = "alias" -> FALSE
     [] e.ev = "preds" -> PredsOK(base, out, SetOf(e.r))
     [] e.ev = "count" -> IF cfg.exact THEN e.r = Cardinality(Visible(base, out))
                          ELSE e.r >= Cardinality(Visible(base, out))
